@@ -293,7 +293,7 @@ def _trace_raisers() -> dict[str, Any]:
 
         return lax.cond(jnp.sum(x) > 0, br, lambda v: v, jnp.reshape(x, (2, 3)))
 
-    return {"top": top, "loop_body": in_loop, "cond_branch": in_cond, "function_body": fnmods.c13_outer_raising, "nested_function_body": fnmods.c13_outer_nested_raising}
+    return {"function_body_retrace_only": fnmods.c14_gated_failing, "top": top, "loop_body": in_loop, "cond_branch": in_cond, "function_body": fnmods.c13_outer_raising, "nested_function_body": fnmods.c13_outer_nested_raising}
 
 
 # ----------------------------------------------------------------------------
@@ -309,7 +309,7 @@ def enumerate_cases(tier: str, seed: int) -> list[dict[str, Any]]:
     for r in range(3 if tier == "quick" else 10):
         for variant in ("plain", "nested", "called_before", "in_function_body"):
             cases.append({"key": f"fresh_jit:{variant}#{r}", "prog": None, "fresh_jit": variant, "plan": {"kind": "none"}, "cost": 1.0})
-    for where in ("top", "loop_body", "cond_branch", "function_body", "nested_function_body"):
+    for where in ("top", "loop_body", "cond_branch", "function_body", "nested_function_body", "function_body_retrace_only"):
         for dp in (False, True):
             cases.append({"key": f"trace_raise:{where}:dp={int(dp)}", "prog": None, "raiser": where, "dp": dp, "plan": {"kind": "none"}, "cost": 1.0})
     # patch-stack faults: the index space is measured in the worker (count_only run); here strata
